@@ -568,6 +568,7 @@ func (c *StructCode) enableIndirect() {
 }
 
 func (c *StructCode) Filter(query *FieldQuery) Code {
+	query0 := query
 	fieldMap := map[string]*FieldQuery{}
 	for _, field := range query.Fields {
 		fieldMap[field.Name] = field
@@ -575,6 +576,11 @@ func (c *StructCode) Filter(query *FieldQuery) Code {
 	fields := make([]*StructFieldCode, 0, len(c.fields))
 	for _, field := range c.fields {
 		query, exists := fieldMap[field.key]
+		promoted := false
+		if !exists && field.isAnonymous {
+			// the members of an embedded struct are promoted: this query selects among them
+			query, exists, promoted = query0, len(query0.Fields) > 0, true
+		}
 		if !exists {
 			continue
 		}
@@ -594,6 +600,10 @@ func (c *StructCode) Filter(query *FieldQuery) Code {
 		if len(query.Fields) > 0 {
 			fieldCode.value = fieldCode.value.Filter(query)
 		}
+		if promoted && isEmptyStructCode(fieldCode.value) {
+			// none of the embedded struct's members is selected
+			continue
+		}
 		fields = append(fields, fieldCode)
 	}
 	return &StructCode{
@@ -603,6 +613,20 @@ func (c *StructCode) Filter(query *FieldQuery) Code {
 		disableIndirectConversion: c.disableIndirectConversion,
 		isIndirect:                c.isIndirect,
 		isRecursive:               c.isRecursive,
+	}
+}
+
+// isEmptyStructCode reports whether code is a struct (possibly behind pointers) without fields.
+func isEmptyStructCode(code Code) bool {
+	for {
+		switch c := code.(type) {
+		case *PtrCode:
+			code = c.value
+			continue
+		case *StructCode:
+			return len(c.fields) == 0 && !c.isRecursive
+		}
+		return false
 	}
 }
 
